@@ -382,6 +382,27 @@ func (c *checker) checkDoif(rule *Rule, evs []*event, fwd, rev []int, want func(
 				mustJSON(configMap(rule)), evs[i].text, got[i], w, kindOf(lookup(evs[i].doc, parsePath(rule.Field)))), cd(i))
 		}
 	}
+	// value ordering: the statement says the decision does not depend on the order of the value list, so the same
+	// leaf with its values reversed must decide every event alike (also where the docs are silent about the decision itself)
+	if isFieldOp(rule.Op) && rule.Op != "contains_any" && len(rule.Values) >= 2 {
+		rv := *rule
+		rv.Values = make([]*string, len(rule.Values))
+		for i, v := range rule.Values {
+			rv.Values[len(rule.Values)-1-i] = v
+		}
+		if b, err := doifCtor(&rv); err == nil {
+			other := make([]bool, n)
+			if c.evalAll(b, evs, fwd, other, cd) {
+				for _, i := range fwd {
+					if other[i] != got[i] {
+						r.Violation("value-order", map[string]string{"part": "doif", "op": rule.Op, "ci": fmt.Sprint(rule.CI)},
+							fmt.Sprintf("do_if %s\nevent %s\ndecision %v, but %v with the value list reversed", mustJSON(configMap(rule)), evs[i].text, got[i], other[i]), cd(i))
+						break
+					}
+				}
+			}
+		}
+	}
 	// stability: same selector, events in the opposite order
 	tmp := make([]bool, n)
 	if !c.evalAll(a, evs, rev, tmp, cd) {
